@@ -524,6 +524,8 @@ def r2(ctx: Ctx, roles) -> None:
     write_path_unconverted(ctx, "C09.R2")
     error_construction_is_total(ctx)
     cleanup_after_await_is_guarded(ctx, "C09.R2")
+    locals_bound_on_every_path(ctx, "C09.R2")
+    classified_errors_not_degraded(ctx, "C09.R2")
 
 
 def cleanup_after_await_is_guarded(ctx: Ctx, rule: str) -> None:
@@ -559,6 +561,73 @@ def cleanup_after_await_is_guarded(ctx: Ctx, rule: str) -> None:
         all_bad += bad
     ctx.ob(rule, "client:APIClient", f"clean-up blocks that follow an await reach through Optional attributes only under a test ({n_blocks} blocks)", not all_bad, f"{all_bad[:3]}")
     ctx.count(rule + ".cleanup_blocks", n_blocks, 6, "finally/except blocks of awaiting try statements in classes with Optional attributes")
+
+
+def classified_errors_not_degraded(ctx: Ctx, rule: str) -> None:
+    """A handler that names a class of the connection-error hierarchy has a classified error in its hands: it may
+    handle it or re-raise it, not replace it by a newly built error (the subclass - invalid key, bad name, invalid
+    password - is what callers and the reconnect manager branch on)."""
+    n = 0
+    bad: list[str] = []
+    for f in ctx.repo.all_funcs():
+        for t in own_nodes(f.node):
+            if not isinstance(t, ast.Try):
+                continue
+            for h in t.handlers:
+                if h.type is None:
+                    continue
+                ts = [norm(e).split(".")[-1] for e in (h.type.elts if isinstance(h.type, ast.Tuple) else [h.type])]
+                api = [x for x in ts if ctx.repo.is_subclass(x, "APIConnectionError")]
+                if not api:
+                    continue
+                n += 1
+                for b in h.body:
+                    for r in walk_own(b):
+                        if isinstance(r, ast.Raise) and isinstance(r.exc, ast.Call):
+                            bad.append(f"{f.qualname} L{r.lineno} except {'/'.join(api)}: {norm(r)[:50]}")
+    ctx.ob(rule, "connection:APIConnection", f"no handler of a classified connection error replaces it by a newly built one ({n} handlers)", not bad, f"{bad[:3]}: the subclass of the error that was caught (invalid encryption key, bad name, ...) is lost to the caller")
+    ctx.count(rule + ".api_handlers", n, 3, "handlers naming a class of the connection-error hierarchy")
+
+
+# The one place the path-insensitive definite-assignment analysis cannot decide, read and confirmed: in
+# process_packet the message class is bound by the table look-up inside the `try`; it is used in the handler of that
+# try, which is only reached with the class unbound when the look-up itself raised - the IndexError with which the
+# handler returns before those uses (C12 checks that branch).  The exemption is by shape, not by name: a name whose
+# only binding in that function is `name = <table>[...]` in a try body, used in a handler of the same try.
+UNBOUND_EXEMPT_FUNCS = {"connection:APIConnection.process_packet"}
+
+
+def _lookup_bound_in_try(f: Func, name: str, line: int) -> bool:
+    binds = [n for n in own_nodes(f.node) if isinstance(n, (ast.Assign, ast.AnnAssign, ast.AugAssign, ast.NamedExpr, ast.For, ast.With)) and any(isinstance(x, ast.Name) and isinstance(x.ctx, ast.Store) and x.id == name for x in ast.walk(n.target if isinstance(n, (ast.AnnAssign, ast.AugAssign, ast.NamedExpr, ast.For)) else n) if not isinstance(n, ast.With))]
+    binds = [b for b in binds if not isinstance(b, (ast.For, ast.With)) or any(isinstance(x, ast.Name) and x.id == name for x in ast.walk(b.target if isinstance(b, ast.For) else b))]
+    if len(binds) != 1 or not isinstance(binds[0], ast.Assign) or not isinstance(binds[0].value, ast.Subscript):
+        return False
+    for t in own_nodes(f.node):
+        if isinstance(t, ast.Try) and any(binds[0] is x for b in t.body for x in ast.walk(b)):
+            return any(getattr(h, "lineno", 0) <= line <= getattr(h, "end_lineno", 0) for h in t.handlers)
+    return False
+
+
+def locals_bound_on_every_path(ctx: Ctx, rule: str) -> None:
+    """No path through a function of the package reaches a use of a local name it has not bound: the
+    UnboundLocalError would reach the caller raw, in place of the classified error or of the result."""
+    from ..totality import maybe_unbound
+
+    n = 0
+    bad: list[str] = []
+    exempted = 0
+    for f in ctx.repo.all_funcs():
+        n += 1
+        for d in maybe_unbound(ctx, f):
+            name = d.split("`")[1]
+            line = int(d.split(" ")[0][1:])
+            if f.key in UNBOUND_EXEMPT_FUNCS and _lookup_bound_in_try(f, name, line):
+                exempted += 1
+                continue
+            bad.append(f"{f.qualname} {d}")
+            ctx.ob(rule, f, f"{f.qualname}: every local name is bound on every path that uses it", False, f"{d}: that path ends with a raw UnboundLocalError")
+    ctx.ob(rule, "connection:APIConnection", f"every local name is bound on every path that uses it ({n} functions; {exempted} uses exempted by the confirmed shape in process_packet)", not bad, f"{bad[:3]}")
+    ctx.count(rule + ".functions", n, 200, "functions of the package analysed for definite assignment")
 
 
 def error_construction_is_total(ctx: Ctx) -> None:
